@@ -387,6 +387,13 @@ def check_complete_view(repo: Repo, rep: Report):
     for nm in ("visit_Import", "visit_ImportFrom"):
         fm = ap.method(nm)
         pi = ap.method("_process_import")
+        if fm is not None:
+            # recorded directly in the visitor (also what the model's helper inlining turns the helper call into)
+            gd = CFG(fm.node)
+            direct = [n for n in body_walk(fm.node) if isinstance(n, ast.Call) and dotted(n.func) == "self.imports.append"]
+            if direct and gd.always_passes(direct[0]):
+                rep.ok("C04.complete-view", fm.qualname, "every import node is recorded", f"{fm.file}:{fm.line}")
+                continue
         if fm is None or pi is None:
             rep.bad("C04.complete-view", f"{ap.qualname}.{nm}", "missing", f"{nm} / _process_import missing", ap.module.relpath, ap.node.lineno)
             continue
